@@ -73,7 +73,9 @@ Judge(S, e) ==
              tag == "submit/" \o OTag(o)
              cost == Notional(o.q, o.p)
              lhs == o.q + (IF o.typ = "STP" THEN RefSum(S, "STP") ELSE RefSum(S, "LMT"))
-             knife == IF o.side = "buy" THEN Near(cost, S.quote, 2) ELSE Near(lhs, S.base, SumTol(S) + 1)
+             \* with fee 0 every quantity and sum is an exact decimal (Decimal arithmetic in the code, whole BU in the
+             \* log): the sell-side comparison is then judged strictly, also at equality
+             knife == IF o.side = "buy" THEN Near(cost, S.quote, 2) ELSE (Bp # 0 /\ Near(lhs, S.base, SumTol(S) + 1))
              mustReject == IF o.side = "buy" THEN cost > S.quote ELSE lhs > S.base
          IN IF ~knife /\ mustReject /\ e.acc THEN R(tag \o ":accepted-over-balance", "")
             ELSE IF ~knife /\ ~mustReject /\ ~e.acc THEN R(tag \o ":rejected-within-balance", "")
@@ -113,7 +115,7 @@ Judge(S, e) ==
 
 KnifeEv(S, e) ==
   e.k = "submit" /\ (IF e.side = "buy" THEN Near(Notional(e.q, e.p), S.quote, 2)
-                     ELSE Near(e.q + (IF e.typ = "STP" THEN RefSum(S, "STP") ELSE RefSum(S, "LMT")), S.base, SumTol(S) + 1))
+                     ELSE Bp # 0 /\ Near(e.q + (IF e.typ = "STP" THEN RefSum(S, "STP") ELSE RefSum(S, "LMT")), S.base, SumTol(S) + 1))
 
 Init == /\ tid \in 1..Len(Traces) /\ l = 1 /\ known = {}
         /\ st = Traces[tid].init
